@@ -39,14 +39,21 @@ def _alarm(sig, frm):
     raise Timeout()
 
 
-def guarded(fn, secs=20):
+def guarded(fn, secs=20, _retry=True):
+    """fn() under a wall-clock guard.  A wall-clock limit on a shared machine is not evidence: a
+    timed-out call is run once more with six times the limit before Timeout is reported (every fn
+    passed here builds fresh objects)."""
     old = signal.signal(signal.SIGALRM, _alarm)
     signal.alarm(secs)
     try:
         return fn()
+    except Timeout:
+        if not _retry:
+            raise
     finally:
         signal.alarm(0)
         signal.signal(signal.SIGALRM, old)
+    return guarded(fn, 6 * secs, _retry=False)
 
 
 def rnd_c(rng, sc):
